@@ -47,6 +47,9 @@ def canon_pred(p, depth=0):
             op, a, b = SWAP[op], b, a
         if op == 'Ge' and strip(b)[0] == 'int' and strip(b)[1] == 1:
             op, b = 'Gt', ('int', 0) + tuple(strip(b)[2:])
+        # unsigned: x > 0 is x != 0, x <= 0 is x == 0
+        if op in ('Gt', 'Le') and strip(b)[0] == 'int' and strip(b)[1] == 0 and len(strip(b)) > 2 and str(strip(b)[2]).startswith('u'):
+            op = 'Ne' if op == 'Gt' else 'Eq'
         return ('bin', op, a, b)
     return p
 
@@ -306,3 +309,21 @@ def lifted_guards(fn, skip=()):
             lg.lifted_from = callee.id
             out.append(lg)
     return out
+
+
+def block_conditions(fn, block):
+    """the atomic conditions under which `block` runs (every dominating switch edge outside `?` and loop drivers), combinator
+    chains unfolded: [predicate]"""
+    from mirlib import _edge_conds, opt_sem, conj_simplify
+    out = []
+    for _b, c, lab in _edge_conds(fn, block):
+        p = norm_pred(c, lab)
+        if p[0] == 'is_some' and strip(p[1])[0] == 'call':
+            conds, _v = opt_sem(fn, p[1])
+            out.extend(canon_pred(x) for x in conj_simplify(conds))
+        else:
+            out.append(p)
+    return out
+
+
+push_conditions = block_conditions
